@@ -185,7 +185,7 @@ func main() {
 	r := ev.Start("C10")
 	defer r.RecoverMain()
 	defer world.Cleanup()
-	r.SetBudget(ev.Pick(r, 150*time.Second, 30*time.Minute))
+	r.SetBudget(ev.Pick(r, 300*time.Second, 30*time.Minute))
 	r.Assume("DBIs without the dupsort hack", "part (b) replicates the loop's upload rule (LastTxnID > lastSyncedTxnID) in the harness; the real loop is explored by the E3 sync-loop scenario")
 
 	// ---------- part (a) ----------
